@@ -194,10 +194,29 @@ theorem C02_code_open (walMax dbMax : Nat) :
       ev.getLast? = some ("go db.run", 0) := by
   refine ⟨_, DBTie.open_table false false walMax dbMax, by omega, by omega, by simp, by simp, by simp⟩
 
+/-- the code of `levelManager.recover` (translated on every run): Open rebuilds one handle for every `.db` file of the directory —
+    none is skipped, sub-directories and other files are ignored, leftover `.tmp` files are removed and nothing else is — and
+    returns the largest version of any entry of any table (what `C02_code_open` continues from); an empty directory gives 0 -/
+theorem C02_code_recover_tables {φ ν η ι β : Type} (isDir isDB isTmp : φ → Bool) (fname : φ → ν) (sortN : List ν → List ν)
+    (plevel pidx : ν → Nat) (indexOf : ν → ι) (entriesOf : ν → List η) (ver : η → Nat) (mkFilter : List η → β) (files : List φ) :
+    let names := (files.filter (fun f => !isDir f && isDB f)).map fname
+    let removed := (files.filter (fun f => !isDir f && isTmp f)).map (fun f => ("os.Remove (leftover tmp)", fname f))
+    GenLevel.recover isDir isDB isTmp fname sortN plevel pidx (fun _ => false) (fun _ _ => false) indexOf entriesOf ver mkFilter false files [] =
+      if names.length = 0 then some (0, [], removed)
+      else some (((sortN names).flatMap entriesOf).foldl (fun m e => max m (ver e)) 0,
+                 ((sortN names).foldl (LevelTie.stepFile plevel pidx indexOf entriesOf ver mkFilter) (0, [])).2, removed) := by
+  intro names removed
+  rw [LevelTie.recover_table]
+  simp only [names, removed]
+  split
+  · rfl
+  · rw [LevelTie.stepFile_max]
+
 #print axioms C02_reopen
 #print axioms C02_reopen_reads
 #print axioms C02_still_writable
 #print axioms C02_code_fresh_table_name
 #print axioms C02_code_close
 #print axioms C02_code_open
+#print axioms C02_code_recover_tables
 end Props
